@@ -1000,4 +1000,77 @@ theorem C13_user_class_witness (cb : QVal → PyVal) :
   · cases r <;> rfl
   · rfl
 
+/-! ## strengthening round W13: a quantizer slot whose weight a switch turns off
+    (`use_bias=False` + `bias_quantizer`, `center=False` + `beta_quantizer`, `scale=False` + `gamma_quantizer`) -/
+
+def Kind.isQuant : Kind → Bool
+  | .quant _ => true
+  | _ => false
+
+/-- the switches that create / leave out a weight, with the quantizer slot of that weight -/
+def weightSwitches : List (String × String) :=
+  [("use_bias", "bias_quantizer"), ("center", "beta_quantizer"), ("scale", "gamma_quantizer")]
+
+/-- (class, switch, slot) over the real table: every class that has both arguments -/
+def switchedSlots : List (String × String × String) :=
+  lSpecs.flatMap fun s =>
+    (weightSwitches.filter fun w => s.hasParam w.1 && s.hasParam w.2).map fun w => (s.name, w.1, w.2)
+
+/-- the complete list (the batch-norm folding classes and the recurrent classes / cells included) -/
+theorem C13_switched_slots_list :
+    switchedSlots =
+      [("QDense", "use_bias", "bias_quantizer"), ("QConv1D", "use_bias", "bias_quantizer"),
+       ("QConv2D", "use_bias", "bias_quantizer"), ("QConv2DTranspose", "use_bias", "bias_quantizer"),
+       ("QSimpleRNNCell", "use_bias", "bias_quantizer"), ("QSimpleRNN", "use_bias", "bias_quantizer"),
+       ("QLSTMCell", "use_bias", "bias_quantizer"), ("QLSTM", "use_bias", "bias_quantizer"),
+       ("QGRUCell", "use_bias", "bias_quantizer"), ("QGRU", "use_bias", "bias_quantizer"),
+       ("QDepthwiseConv2D", "use_bias", "bias_quantizer"), ("QSeparableConv1D", "use_bias", "bias_quantizer"),
+       ("QSeparableConv2D", "use_bias", "bias_quantizer"),
+       ("QBatchNormalization", "center", "beta_quantizer"), ("QBatchNormalization", "scale", "gamma_quantizer"),
+       ("QConv2DBatchnorm", "use_bias", "bias_quantizer"), ("QDepthwiseConv2DBatchnorm", "use_bias", "bias_quantizer"),
+       ("QScaleShift", "use_bias", "bias_quantizer")] := by
+  decide
+
+/-- in the real table EVERY quantizer slot of EVERY class is written by `get_config` and is in the
+    class' read set — in particular the slots of `C13_switched_slots_list`: `C13_layer_roundtrip`
+    returns them unchanged whatever the switch says (its statement quantifies over all argument
+    values, `use_bias = False` included) -/
+theorem C13_quantizer_slots_emitted_read :
+    ∀ s ∈ lSpecs, ∀ p ∈ s.params, p.kind.isQuant = true → p.emitted = true ∧ p.read = true := by
+  decide
+
+/-- what `get_config` writes for an emitted argument is a function of THAT argument alone: a layer
+    `L'` that differs from `L` in any other argument (the switch of the weight, the folding mode, …)
+    but holds the same value writes the very same entry -/
+theorem C13_config_entry_switch_independent (E : Env) (spec : LSpec) (L L' : Layer) (p : Param)
+    (hp : p ∈ spec.params) (he : p.emitted = true) (h : L.arg p.name = L'.arg p.name) :
+    (p.name, serArg E p.kind (L.arg p.name)) ∈ layerGetConfig E spec L' := by
+  rw [h]
+  unfold layerGetConfig
+  exact List.mem_append_right _ (List.mem_map.mpr ⟨p, List.mem_filter.mpr ⟨hp, he⟩, rfl⟩)
+
+/-- `QDepthwiseConv2DBatchnorm((2,2), use_bias=False, bias_quantizer=quantized_bits(4,0,1,alpha=1))`:
+    the layer that quantizes the bias folded from the batch-norm statistics although the convolution
+    has no bias -/
+def dwBnNoBias : Layer :=
+  ⟨"QDepthwiseConv2DBatchnorm", [("name", .str "dw")],
+   ls_QDepthwiseConv2DBatchnorm.params.map fun p =>
+     if p.name == "kernel_size" then (p.name, .lit (.list [.num 2, .num 2]))
+     else if p.name == "use_bias" then (p.name, .lit (.bool false))
+     else if p.name == "activation" then (p.name, .act (.fn "linear"))
+     else if p.name == "bias_quantizer" then (p.name, .q (.obj qb4))
+     else (p.name, p.default)⟩
+
+/-- its config holds the bias quantizer (not `None`), and the rebuilt layer holds the same
+    quantizer and the same switch -/
+theorem C13_biasless_bias_quantizer_witness (cb : QVal → PyVal) :
+    (layerGetConfig (env cb) ls_QDepthwiseConv2DBatchnorm dwBnNoBias).lookup "bias_quantizer"
+        = some (serQ (env cb) (.obj qb4)) ∧
+      (layerGetConfig (env cb) ls_QDepthwiseConv2DBatchnorm dwBnNoBias).lookup "use_bias" = some (.bool false) ∧
+      ((layerFromConfig (env cb) ls_QDepthwiseConv2DBatchnorm
+          (layerGetConfig (env cb) ls_QDepthwiseConv2DBatchnorm dwBnNoBias)).toOption.map
+        fun L' => (L'.arg "bias_quantizer", L'.arg "use_bias"))
+        = some (.q (.obj qb4), .lit (.bool false)) := by
+  refine ⟨rfl, rfl, rfl⟩
+
 end QKV.Props.C13
